@@ -329,6 +329,20 @@ func (f *Flow) out(b *ssa.BasicBlock) Facts {
 	return facts
 }
 
+// DeadEdges: CFG edges that are infeasible under the assumptions / known facts (after convergence).
+func (f *Flow) DeadEdges() map[[2]*ssa.BasicBlock]bool {
+	dead := map[[2]*ssa.BasicBlock]bool{}
+	for _, b := range f.C.Fn.Blocks {
+		o := f.out(b)
+		for si, s := range b.Succs {
+			if o == nil || f.edgeFacts(b, si, o) == nil {
+				dead[[2]*ssa.BasicBlock{b, s}] = true
+			}
+		}
+	}
+	return dead
+}
+
 // At returns the facts holding just before the instruction.
 func (f *Flow) At(in ssa.Instruction) Facts {
 	b := in.Block()
